@@ -148,8 +148,19 @@ def set_argv(s, call, argv):
     shape = call["argv"]
     if shape in ("a_huge", "a_100k", "a_2g") and argv is not None and len(argv) >= 2 and argv[0] == b"prog":
         s.add("sharedargv", 2200 if shape == "a_2g" else 1, len(argv[1]))
+    elif shape == "a_many" and argv is _MANY:
+        s.add("manyargv", len(_MANY))
     else:
         s.argv(argv)
+
+
+def set_path(s, call, p, ctx):
+    """path of the next call; the long ones ("/" + "./" * n + helper) are built inside the driver"""
+    n = {"p_long": 1900, "p_vlong": 3000}.get(call["path"])
+    if n and p == b"/" + b"./" * n + ctx.helper.lstrip(b"/"):
+        s.add("dotpath", n, drv.hx(ctx.helper.lstrip(b"/")))
+    else:
+        s.path(p)
 
 
 def piece_bytes(piece, path, argv, dsmax):
@@ -335,7 +346,7 @@ def build_script(ctx, items, warm=True, snap=True):
         else:
             s.add("inirmdir").add("ini", drv.hx(ini) if ini is not None else "-")
         s.add("dumpenv")
-        s.path(p)
+        set_path(s, call, p, ctx)
         set_argv(s, call, argv)
         if kind == "execve":
             s.envp(envp)
@@ -404,6 +415,11 @@ def run_batches(build, items, workdir, workers=None, warm=True, snap=True, timeo
                         evs.append(json.loads(line))
                     except ValueError:
                         evs.append({"ev": "garbled", "raw": line[:200]})
+        for f_ in (sp, op):                 # scripts and raw outputs can be large (hex of every argument and record): drop them once parsed
+            try:
+                os.unlink(f_)
+            except OSError:
+                pass
         return rc, evs
 
     if can_ns:
@@ -548,7 +564,7 @@ def build_script_hist(ctx, items, snap=True):
                 s.add("ini", "-").add("inidir")
             else:
                 s.add("inirmdir").add("ini", drv.hx(ini) if ini is not None else "-")
-            s.path(p)
+            set_path(s, call, p, ctx)
             set_argv(s, call, argv)
             if kind == "execve":
                 s.envp(envp)
@@ -597,6 +613,11 @@ def run_hist(build, items, workdir, workers=None, timeout=900, wrap=None):
                     evs.append(json.loads(line))
                 except ValueError:
                     pass
+        for f_ in (sp, op):                 # scripts and raw outputs can be large (hex of every argument and record): drop them once parsed
+            try:
+                os.unlink(f_)
+            except OSError:
+                pass
         return rc, evs
 
     if par:
